@@ -303,6 +303,8 @@ def resolve(t, facts):
 def equal(t1, t2, N=None, limit=4096, with_unordered=False):
     """semantic equality; returns (bool, counterexample facts or None)"""
     N = N or Normalizer()
+    if t1 == t2:
+        return True, None
     atoms = []
     for a in cond_atoms(t1) + cond_atoms(t2):
         if a not in atoms:
